@@ -15,6 +15,9 @@ CONFIGS = {
     "set-set-lossy": dict(modes=("set", "set"), nmsg=(2, 2), eager=False),
     "set-set-3msg-burst-dup": dict(modes=("set", "set"), nmsg=(3, 3), adversary=("dup",), canon="burst"),
     "alloc-set-3msg-burst-dup": dict(modes=("allocate", "set"), nmsg=(3, 2), adversary=("dup",), canon="burst"),
+    # the WebSocket may start closing at any moment: until its onClose is delivered every send on it fails (autobahn raises Disconnected out of
+    # send_message(); judged here is only what the peer receives - whether that exception may escape is C14's subject)
+    "set-set-3msg-wsclosing": dict(modes=("set", "set"), nmsg=(3, 1), adversary=("wsclosing",)),
     "set-set-deferred-getters-burst": dict(modes=("set", "set"), nmsg=(3, 1), delegated=(False, False), auto_get=False, getters=True, canon="burst"),
 }
 
@@ -25,7 +28,8 @@ class MsgExplore(Explore):
 
     def violations(self, sim, when):
         out = []
-        if len(sim.cl) != 2 or any(c.errors for c in sim.cl):
+        env_induced = (lambda e: e[0] == "api:send_message" and e[1] == "Disconnected") if "wsclosing" in sim.adv else (lambda e: False)
+        if len(sim.cl) != 2 or any(not env_induced(e) for c in sim.cl for e in c.errors):
             return out
         for i, c in enumerate(sim.cl):
             got = [e[1] for e in c.ev if e[0] == "message"]
